@@ -15,6 +15,9 @@ var MapOrder func(n int) []int
 // MapRanges counts rewritten map ranges executed (reach measure).
 var MapRanges uint64
 
+//go:norace
+func bumpMapRanges() { MapRanges++ }
+
 func keyLess(a, b any) bool {
 	switch x := a.(type) {
 	case string:
@@ -39,7 +42,7 @@ func keyLess(a, b any) bool {
 
 // MapKeys returns the keys of m in the order the simulator chose (sorted when none is active).
 func MapKeys[M ~map[K]V, K comparable, V any](m M) []K {
-	MapRanges++
+	bumpMapRanges()
 	keys := make([]K, 0, len(m))
 	for k := range m {
 		keys = append(keys, k)
